@@ -649,8 +649,10 @@ func c20NodeArg(c *core.Ctx, fns []*ssa.Function) {
 				}
 				if via, what := usesCache(cf, 0, map[*ssa.Function]bool{}); via != nil {
 					c.Bad("R20b", core.FuncKey(via)+" serves "+ks, via.Pos(), "the context JSON passes through "+what+": a node's ID does not change when its subtree changes, so ancestors of the target would be served stale JSON")
+				} else if why, ok := returnsConverterResult(cf, 0); !ok {
+					c.Bad("R20b", key+" unmodified", core.InstrPos(in), "the context JSON is not the node converter's result as it is: "+why+" — text that happens to contain the rewritten sequence inside a string value is altered, and _node no longer reflects the node (possibly no longer valid JSON)")
 				} else {
-					c.OK("R20b", key, core.InstrPos(in), "computed from the current node by a cache-free call chain ("+core.FuncKey(cf)+")")
+					c.OK("R20b", key, core.InstrPos(in), "computed from the current node by a cache-free call chain ("+core.FuncKey(cf)+"), handed on unmodified")
 				}
 			}
 		}
@@ -658,6 +660,45 @@ func c20NodeArg(c *core.Ctx, fns []*ssa.Function) {
 	if !found {
 		c.Unresolved("R20b", "_node argument", "no map update with a constant \"_…\" key found in the package")
 	}
+}
+
+// returnsConverterResult: every value f returns is the result of a call to one of idr's JSON converters (JSONify*,
+// J2NodeToInterface + json.Marshal are the converter itself), directly or through a repository helper of which the same
+// holds; no call on the way takes the converter's text as an argument (a rewrite of the text).
+func returnsConverterResult(f *ssa.Function, depth int) (string, bool) {
+	if depth > 4 || f.Blocks == nil {
+		return "call chain too deep", false
+	}
+	if p := core.FuncPkg(f); p != nil && core.Rel(p.Path()) == "idr" {
+		return "", true // the converter package itself
+	}
+	for _, b := range f.Blocks {
+		for _, in := range b.Instrs {
+			rt, ok := in.(*ssa.Return)
+			if !ok || len(rt.Results) == 0 {
+				continue
+			}
+			v := core.Unwrap(rt.Results[0], true)
+			call, ok := v.(*ssa.Call)
+			if !ok {
+				return "a returned value is not a call result", false
+			}
+			cf := call.Call.StaticCallee()
+			if cf == nil {
+				return "dynamic callee " + call.Call.String(), false
+			}
+			if p := core.FuncPkg(cf); p != nil && core.Rel(p.Path()) == "idr" {
+				continue
+			}
+			if !core.InRepo(core.FuncPkg(cf)) {
+				return "the text passes through " + core.FuncKey(cf), false
+			}
+			if why, ok := returnsConverterResult(cf, depth+1); !ok {
+				return why, false
+			}
+		}
+	}
+	return "", true
 }
 
 // usesCache: f or its static repo callees call LoadingCache.Get or look up a map held in a package-level variable.
